@@ -6,6 +6,7 @@ import (
 	"fmt"
 	"go/token"
 	"go/types"
+	"net"
 )
 
 // sym is a symbolic bool or integer. Machine integers are bit-vectors of the
@@ -349,13 +350,78 @@ func strTerm(v value) *Term {
 	panic(fmt.Sprintf("strTerm: %T", v))
 }
 
+func b2sName(n int) string { return fmt.Sprintf("b2s%d", n) }
+
+// bytesToSymStr is string(b) for a byte slice with symbolic bytes: an
+// application b2sN(b0..bN-1). Equality with a literal or with another such
+// string is expanded to byte-wise equality, so it is exact.
+func bytesToSymStr(b []value) value {
+	args := make([]*Term, len(b))
+	for j, c := range b {
+		_, args[j] = termOf(c)
+	}
+	return symstr{mkUF(b2sName(len(b)), wStr, args...)}
+}
+
+func isB2S(t *Term) bool { return t.op == OpUF && t.name == b2sName(len(t.args)) }
+
+// strEq builds the equality of two string terms.
+func isIPStr(t *Term) bool { return t.op == OpUF && t.name == "ipstr" }
+
+func strEq(tx, ty *Term) *Term {
+	if isIPStr(ty) && !isIPStr(tx) {
+		tx, ty = ty, tx
+	}
+	if isIPStr(tx) {
+		switch {
+		case ty.op == OpStrLit:
+			// ipstr is the canonical dotted quad of a 32-bit address
+			ip := net.ParseIP(ty.name)
+			if ip == nil || ip.To4() == nil || ip.To4().String() != ty.name {
+				return tFalse
+			}
+			i4 := ip.To4()
+			v := uint64(i4[0])<<24 | uint64(i4[1])<<16 | uint64(i4[2])<<8 | uint64(i4[3])
+			return mkEq(tx.args[0], mkConst(32, v))
+		case isIPStr(ty):
+			return mkEq(tx.args[0], ty.args[0])
+		}
+	}
+	if isB2S(ty) && !isB2S(tx) {
+		tx, ty = ty, tx
+	}
+	if isB2S(tx) {
+		switch {
+		case ty.op == OpStrLit:
+			if len(ty.name) != len(tx.args) {
+				return tFalse
+			}
+			r := tTrue
+			for j, a := range tx.args {
+				r = mkAnd(r, mkEq(a, mkConst(8, uint64(ty.name[j]))))
+			}
+			return r
+		case isB2S(ty):
+			if len(ty.args) != len(tx.args) {
+				return tFalse
+			}
+			r := tTrue
+			for j, a := range tx.args {
+				r = mkAnd(r, mkEq(a, ty.args[j]))
+			}
+			return r
+		}
+	}
+	return mkEq(tx, ty)
+}
+
 func symStrBinop(op token.Token, x, y value) value {
 	tx, ty := strTerm(x), strTerm(y)
 	switch op {
 	case token.EQL:
-		return mkSym(types.Bool, mkEq(tx, ty))
+		return mkSym(types.Bool, strEq(tx, ty))
 	case token.NEQ:
-		return mkSym(types.Bool, mkNot(mkEq(tx, ty)))
+		return mkSym(types.Bool, mkNot(strEq(tx, ty)))
 	case token.ADD:
 		return symstr{mkUF("strcat", wStr, tx, ty)}
 	}
